@@ -4,7 +4,7 @@
    _mm_malloc and the matching free) is the variable [be_malloc]/[be_free]; its
    contract [be_contract] is an explicit premise.  W = 2^64. *)
 From Common Require Import Prelude.
-From C14 Require Import Model Proofs ProofsHeap ProofsBump.
+From C14 Require Import Model Proofs ProofsHeap ProofsBump ProofsLife.
 Local Open Scope Z_scope.
 
 (* ---- aligned_allocator<T,A>::allocate: the overflow guard *)
@@ -221,6 +221,56 @@ Theorem vector_step_preserves_invariant :
 Proof. exact vector_step_no_abort. Qed.
 Print Assumptions vector_step_preserves_invariant.
 
+(* ---- element lifetimes: construct(p, t) = copy construction at p, destroy(p) = destructor at p
+   (that the source does exactly this is the regenerated obligation gen_construct_is_placement_copy /
+   gen_destroy_is_destructor_call).  ev_run is defined only while every slot is constructed when not
+   alive and destroyed when alive, so "ev_run ... = Some _" says: constructed exactly once per slot
+   before each destruction, destroyed exactly once. *)
+
+(* a second construction of a live slot, or the destruction of a slot that is not alive, is not a run *)
+Theorem element_constructed_once : forall L a es, In a L -> ev_run L (ECons a :: es) = None.
+Proof. exact ev_no_double_construct. Qed.
+Print Assumptions element_constructed_once.
+
+Theorem element_destroyed_once : forall L a es, ~ In a L -> ev_run L (EDest a :: es) = None.
+Proof. exact ev_no_double_destroy. Qed.
+Print Assumptions element_destroyed_once.
+
+(* per address, constructions and destructions of a run differ exactly by the change of aliveness *)
+Theorem element_events_balanced : forall es L M a,
+  ev_run L es = Some M ->
+  (count_cons a es + b2n (mem_z a L) = count_dest a es + b2n (mem_z a M))%nat.
+Proof. exact ev_run_balance. Qed.
+Print Assumptions element_events_balanced.
+
+(* from no element alive to no element alive: every address constructed as often as destroyed *)
+Theorem constructed_equals_destroyed : forall es a,
+  ev_run [] es = Some [] -> count_cons a es = count_dest a es.
+Proof. exact ev_run_constructed_eq_destroyed. Qed.
+Print Assumptions constructed_equals_destroyed.
+
+(* reallocation = copy-construct every element in the new block, then destroy every old element:
+   if the new slots are not alive and the old ones are, every event is legal and afterwards exactly
+   the new slots are alive in place of the old ones *)
+Theorem reallocation_constructs_then_destroys : forall sizeT old new n L,
+  0 < sizeT ->
+  (forall a, In a (slots new sizeT 0 n) -> ~ In a L) ->
+  (forall a, In a (slots old sizeT 0 n) -> In a L) ->
+  exists M,
+    ev_run L (map ECons (slots new sizeT 0 n) ++ map EDest (slots old sizeT 0 n)) = Some M /\
+    (forall x, In x M <-> In x (slots new sizeT 0 n) \/ (In x L /\ ~ In x (slots old sizeT 0 n))).
+Proof. exact realloc_events. Qed.
+Print Assumptions reallocation_constructs_then_destroys.
+
+(* the premise "new slots are not alive": elements lying inside two disjoint blocks (fresh, by the
+   allocator contract) never share an address *)
+Theorem elements_of_disjoint_blocks_distinct : forall x y sizeT n m,
+  0 < sizeT -> disjointb x y = true ->
+  n * sizeT <= b_size x -> m * sizeT <= b_size y ->
+  forall a, In a (slots (b_addr x) sizeT 0 n) -> ~ In a (slots (b_addr y) sizeT 0 m).
+Proof. exact slots_of_disjoint_blocks. Qed.
+Print Assumptions elements_of_disjoint_blocks_distinct.
+
 (* ---- the hypotheses are satisfiable: the bump allocator that plays the back
    end in the differential run meets the contract; libstdc++'s growth policy
    meets grow_ok *)
@@ -292,3 +342,20 @@ Example vector_history_example :
   v_cap (s_b _ s) = 5 /\ v_data (s_b _ s) mod 64 = 0 /\ v_data (s_a _ s) mod 64 = 0 /\
   v_data (s_a _ s) <> v_data (s_b _ s) /\ length (w_live _ (s_w _ s)) = 2%nat.
 Proof. vm_compute. repeat split; try reflexivity. discriminate. Qed.
+
+(* the event trace of a vector history (four reallocations, swap, shrink, assign with reallocation):
+   every event is legal; afterwards exactly size(a)+size(b) elements are alive, and destroying the
+   two vectors leaves none: constructed = destroyed *)
+Example lifetime_history_example :
+  let step := fun s o => snd (vs_step _ bump_malloc bump_free false 32 (gnu_vmax 32) (gnu_grow 32) s o) in
+  let s0 := vs_init _ {| bs_cur := BASE; bs_fail := -1 |} in
+  let ops := [VPush false 1; VPush false 2; VPush false 3; VPush false 4; VPush false 5;
+              VSwap; VPush false 9; VShrink true; VAssign false 3 9; VResize true 2 0; VClear false] in
+  let s := vs_run _ bump_malloc bump_free false 32 (gnu_vmax 32) (gnu_grow 32) s0 ops in
+  let es := vs_events step (s_a _) (s_b _) 32 s0 ops in
+  let bye := map EDest (slots (v_data (s_a _ s)) 32 0 (v_size (s_a _ s))) ++
+             map EDest (slots (v_data (s_b _ s)) 32 0 (v_size (s_b _ s))) in
+  option_map (@length Z) (ev_run [] es) = Some 2%nat /\
+  ev_run [] (es ++ bye) = Some [] /\
+  length es = 40%nat.
+Proof. vm_compute. repeat split; reflexivity. Qed.
